@@ -17,7 +17,9 @@ LEVEL_TEXT = ("Theorems in Coq (Properties/C17.v), for every history of user req
               "EVERY request and callback set); a failed application leaves no batch (c17_one_batch_per_committed_request, c17_batch_describes_changes, "
               "c17_no_internal_key_any_request, c17_failed_application_leaves_gap). The dispatch loop started at `from` delivers exactly the retained "
               "batches above `from`: strictly increasing offsets, each once, none above the DB's commit offset, no offset skipped unless its application "
-              "failed, then waits (c17_stream_strictly_increasing_no_gap_no_dup). A subscriber that reconnects with the last offset it saw - to the same "
+              "failed, then waits (c17_stream_strictly_increasing_no_gap_no_dup); over a read that enforces a limit of any number >= 1 of batches per call the loop, "
+              "started at ANY offset - behind trimmed runs, across offsets without batches - still delivers exactly the stored batches above it, in order, each "
+              "once (c17_chunked_reads_cover_everything), whereas limiting the scan to a window of offsets does not (c17_offset_window_read_refuted). A subscriber that reconnects with the last offset it saw - to the same "
               "store or any later state of it (more requests, trimming rounds, re-opened by a restarted node or a new leader) - receives exactly the rest: "
               "seen ++ received = all committed batches above its start, in order, none twice (c17_resume), and the same through the client's own "
               "request/handshake logic incl. the empty-shard start at offset -1 (c17_client_resume). A trimming round removes a whole prefix of the "
@@ -55,7 +57,9 @@ ASSUMES = ["request keys and ranges outside '__oxia/' (user_request) and notific
            "fewer than 2^62 log entries and 2^63 put operations on a shard (int64 offsets / version ids; (first+last)/2 in the trimmer's binary search)",
            "batch timestamps non-decreasing in the offset, for 'only batches older than the retention are trimmed' (refuted without it)",
            "the quorum commit offset handed to a new subscriber's dummy batch is an input of the model (C08 owns it)"]
-RULE = ("db leg (nseq): one case = 12-42 requests against a fresh real kv.DB (plain/conditional/session/indexed/sequence puts, deletes, delete-ranges incl. "
+RULE = ("scale (both legs, every run): 150-400 and 1100 small writes, a trimming round removing a long prefix, a stretch of 99/100/101/130 writes with "
+        "notifications disabled, the dispatch loop / real streams / client managers resuming so that 99/100/101/hundreds of offsets without a batch lie in front "
+        "of retained ones, backlogs > 100 and > 1000, a later commit. db leg (nseq): one case = 12-42 requests against a fresh real kv.DB (plain/conditional/session/indexed/sequence puts, deletes, delete-ranges incl. "
         "colliding start keys, session create/close, failing requests), notifications toggled by UpdateTerm+EnableNotifications, trimming rounds at cut-offs "
         "around stored timestamps, trimming rounds of a shard idle beyond the retention during which a request commits (XW: fired when the trimmer creates "
         "its write batch), the dispatch loop from every kind of start offset, re-opens; 12% with non-monotone timestamps; the stored batch of every "
@@ -68,9 +72,9 @@ RULE = ("db leg (nseq): one case = 12-42 requests against a fresh real kv.DB (pl
         "sub-seed. uncommitted leg: rf=2, 1-4 entries appended but not acknowledged, then 30000 single writes under one waiting subscriber (every batch must "
         "arrive before the next write). realclient leg: newNotifications with its retry loop on the O-17 scenario.")
 LEGS = [
-    {"name": "db", "harness": "db", "model": "db", "args": ["-mode", "c17"], "n_quick": 800, "n_thorough": 30000,
+    {"name": "db", "harness": "db", "model": "db", "args": ["-mode", "c17"], "n_quick": 600, "n_thorough": 30000,
      "corpus": "corpus/db17", "timeout": 900, "timeout_thorough": 3000},
-    {"name": "leader", "harness": "notif", "model": "db", "n_quick": 300, "n_thorough": 12000, "timeout": 900, "timeout_thorough": 3000},
+    {"name": "leader", "harness": "notif", "model": "db", "n_quick": 240, "n_thorough": 12000, "timeout": 900, "timeout_thorough": 3000},
     {"name": "uncommitted", "harness": "notif", "model": None, "args": ["-mode", "uncommitted"], "n_quick": 25, "n_thorough": 500, "timeout": 600},
     {"name": "realclient", "harness": "notif", "model": None, "args": ["-mode", "real-client"], "n_quick": 1, "n_thorough": 1, "timeout": 600},
 ]
